@@ -317,6 +317,13 @@ def gen_spec(rng, H, backend, mode, driver):
             bops.append(['remove', gone])                      # `jug invalidate`
         if rng.random() < 0.3:
             rng.shuffle(bops)
+        # ... and the other worker's `jug execute` stores some of the invalidated NEEDED results again, as plain files,
+        # while the command's copy of the pack still lists them (C10-m10).  Chosen by a generator of its own so that the
+        # specs drawn before this op existed stay what they were.
+        r2 = random.Random('redo:' + ''.join(gone))
+        redo = [k for k in gone if k in active and r2.random() < 0.7]
+        if redo:
+            bops.append(['dump', redo])
     # somebody READS lock files (cat, grep -r, backup) between the failure and the cleanup: their atime moves, their mtime
     # (the failed marker of the file locks) does not
     reads = []
